@@ -96,14 +96,19 @@ def biased_size(draw, lo, hi):
 
 
 @st.composite
-def trees_and_leaves(draw, max_obj, max_sp, min_obj=1, min_sp=1, obj_poly=0, sp_poly=0):
+def trees_and_leaves(draw, max_obj, max_sp, min_obj=1, min_sp=1, obj_poly=0, sp_poly=0, concentrate=False):
     nsp = biased_size(draw, min_sp, max_sp)
     species = SPECIES_NAMES[:nsp]
     stree = draw(nested_tree(species, polytomies=sp_poly, max_arity=3))
     nobj = biased_size(draw, min_obj, max_obj)
     los = {}
+    hosts = species
+    if concentrate and nsp >= 3:
+        # all objects in two or three of the species: the others are empty and many lineages cross the same ancestors
+        k = draw(st.integers(2, 3))
+        hosts = [species[i] for i in sorted(draw(st.permutations(list(range(nsp))))[:k])]
     for i in range(nobj):
-        s = species[draw(st.integers(0, nsp - 1))]
+        s = hosts[draw(st.integers(0, len(hosts) - 1))]
         los[f"{s}_{i}"] = s
     otree = draw(nested_tree(list(los), polytomies=obj_poly))
     return otree, stree, los
@@ -227,8 +232,8 @@ def leaf_syntenies(draw, leaves, max_fam=4, single_prob=0, allow_inconsistent=Tr
 @st.composite
 def rec_case(draw, max_obj=5, max_sp=4, min_obj=1, min_sp=1, costs="coherent", labelled=False,
              max_fam=4, prescribed_root=False, single_prob=0, obj_poly=0, sp_poly=0,
-             allow_inconsistent=True, maxcost=3):
-    otree, stree, los = draw(trees_and_leaves(max_obj, max_sp, min_obj, min_sp, obj_poly, sp_poly))
+             allow_inconsistent=True, maxcost=3, concentrate=False):
+    otree, stree, los = draw(trees_and_leaves(max_obj, max_sp, min_obj, min_sp, obj_poly, sp_poly, concentrate))
     case = {
         "object_tree": nested_to_newick(otree, "O"),
         "species_tree": nested_to_newick(stree, "S"),
@@ -331,12 +336,12 @@ def unordered_labeling(draw, inst):
 
 
 @st.composite
-def labelled_reconciliation_case(draw, max_obj=5, max_sp=5, max_fam=4, costs="free", maxcost=5, min_obj=1):
+def labelled_reconciliation_case(draw, max_obj=5, max_sp=5, max_fam=4, costs="free", maxcost=5, min_obj=1, min_sp=1, concentrate=False):
     """Input + one valid ordered labelling + one valid unordered labelling."""
     from .plain import Instance
 
-    case = draw(rec_case(max_obj=max_obj, max_sp=max_sp, min_obj=min_obj, costs=costs, labelled=True, max_fam=max_fam,
-                         allow_inconsistent=False, maxcost=maxcost))
+    case = draw(rec_case(max_obj=max_obj, max_sp=max_sp, min_obj=min_obj, min_sp=min_sp, costs=costs, labelled=True, max_fam=max_fam,
+                         allow_inconsistent=False, maxcost=maxcost, concentrate=concentrate))
     inst = Instance(case)
     fams = sorted({f for s in case["leaf_syntenies"].values() for f in s}, key=lambda f: int(f[1:]))
     # the hidden order is not stored in the case: recover an order compatible with all leaves
@@ -374,13 +379,18 @@ def _compatible_order(leaf_syn, fams):
 # random valid mappings (constructive), names and colours
 # ---------------------------------------------------------------------------
 @st.composite
-def random_mapping(draw, inst):
+def random_mapping(draw, inst, bias=None):
     """A valid species mapping built bottom-up: every internal node takes one
-    of the species that make a valid event with its children's species."""
+    of the species that make a valid event with its children's species.
+    bias="vertical": three times out of four a node takes a placement without transfer (so that lineages run down
+    through many species: long loss chains, crowded trunks)."""
     m = {l: inst.los[l] for l in inst.oleaves}
     for n in inst.ointernal_post:
         l, r = inst.ochildren[n]
         opts = [x for x in inst.snodes if inst.event3(x, m[l], m[r]) is not None]
+        if bias == "vertical" and chance(draw, 3, 4):
+            vert = [x for x in opts if inst.event3(x, m[l], m[r])[0] in ("S", "D")]
+            opts = vert or opts
         m[n] = opts[draw(st.integers(0, len(opts) - 1))]
     return m
 
@@ -447,8 +457,9 @@ def rename_case(case, omap, smap, fmap=None, ocol=None, scol=None):
     f = lambda syn: [fmap.get(x, x) for x in syn]  # noqa: E731
     if "leaf_syntenies" in case:
         out["leaf_syntenies"] = {omap.get(k, k): f(v) for k, v in case["leaf_syntenies"].items()}
-    if "_mapping" in case:
-        out["_mapping"] = {omap.get(k, k): smap.get(v, v) for k, v in case["_mapping"].items()}
+    for key in ("_mapping", "_mapping2"):
+        if key in case:
+            out[key] = {omap.get(k, k): smap.get(v, v) for k, v in case[key].items()}
     for key in ("_lab_o", "_lab_u"):
         if key in case:
             out[key] = {omap.get(k, k): f(v) for k, v in case[key].items()}
@@ -457,15 +468,16 @@ def rename_case(case, omap, smap, fmap=None, ocol=None, scol=None):
 
 @st.composite
 def drawn_reconciliation(draw, max_obj=8, max_sp=8, max_fam=4, costs="free", random_names=True, colour=True,
-                         name_alphabet=NAME_ALPHABET, fam_alphabet=None, min_obj=1, maxcost=3):
+                         name_alphabet=NAME_ALPHABET, fam_alphabet=None, min_obj=1, maxcost=3, min_sp=1, concentrate=False,
+                         mapping_bias=None):
     """Input + valid mapping + valid ordered and unordered labellings, with
     random unique node names and colour annotations."""
     from .plain import Instance
 
     case = draw(labelled_reconciliation_case(max_obj=max_obj, max_sp=max_sp, max_fam=max_fam, costs=costs,
-                                             maxcost=maxcost, min_obj=min_obj))
+                                             maxcost=maxcost, min_obj=min_obj, min_sp=min_sp, concentrate=concentrate))
     inst = Instance(case)
-    case["_mapping"] = draw(random_mapping(inst))
+    case["_mapping"] = draw(random_mapping(inst, bias=mapping_bias))
     if random_names:
         onames = draw(fresh_names(len(inst.onodes), name_alphabet))
         snames = draw(fresh_names(len(inst.snodes), name_alphabet))
